@@ -112,15 +112,33 @@ def dominating_edges(tr, body, site_bb, _depth=0):
             if pl is None or pl["p"]:
                 continue
             ds = g.reaching(pl["l"], (sw.bb, len(g.stmts(sw.bb))))
-            if not ds or not all(d[3] == "assign" and d[5]["k"] == "use" and "const" in d[5]["op"] and d[5]["op"]["const"].get("disp") in ("true", "false") for d in ds):
+            # `_t = copy _flag; switchInt(_t)`: look at the flag's definitions
+            hops = 0
+            while len(ds) == 1 and ds[0][3] == "assign" and ds[0][5]["k"] == "use" and hops < 3:
+                src_ = ds[0][5]["op"].get("copy") or ds[0][5]["op"].get("move")
+                if src_ is None or src_["p"]:
+                    break
+                ds = g.reaching(src_["l"], (ds[0][1], ds[0][2]))
+                hops += 1
+
+            def _constdisp(d):
+                if d[3] == "assign" and d[5]["k"] == "use" and "const" in d[5]["op"] and d[5]["op"]["const"].get("disp") in ("true", "false"):
+                    return d[5]["op"]["const"]["disp"]
+                return None
+            if len(ds) < 2 or not all(d[3] in ("assign", "call") and not d[4] for d in ds) or not any(_constdisp(d) for d in ds):
                 continue
-            srcs = [d[1] for d in ds if d[5]["op"]["const"]["disp"] == e["label"]]
+            # sources of the value on this edge: the constant assignments equal to the label, and every
+            # non-constant assignment (whose value then equals the label: it acts as a guard of its own)
+            srcs = [(d[1], None) for d in ds if _constdisp(d) == e["label"]] + [(d[1], d) for d in ds if _constdisp(d) is None]
             if not srcs:
                 continue
             common = None
-            for sb_ in srcs:
+            for (sb_, d_) in srcs:
                 es = dominating_edges(tr, body, sb_, _depth + 1)
                 keys = {(x["bb"], x["label"]): x for x in es}
+                if d_ is not None and len(srcs) == 1:
+                    vnode = peel(tr.expand(tr._defnode(body, g, d_, 0)))
+                    keys[(sb_, "value:" + e["label"])] = {"bb": sb_, "kind": "bool", "label": e["label"], "node": vnode, "sw": sw}
                 common = keys if common is None else {k: v for k, v in common.items() if k in keys}
             for k, v in (common or {}).items():
                 if not any(x["bb"] == k[0] and x["label"] == k[1] for x in out + extra):
@@ -310,15 +328,59 @@ def field_provenance(tr, adt, name, depth=0, seen=None):
         return out
     seen.add(key)
     cache[key] = out
+    # only immutable configuration-like fields: a field assigned after construction, or with interior mutability,
+    # holds a *state*, whose initial value says nothing about what it holds later
+    fty = ""
+    for a_ in [facts.adt(adt)]:
+        for v_ in a_["variants"]:
+            for f_ in v_["fields"]:
+                if f_["name"] == name:
+                    for cr in facts.crates.values():
+                        if adt in cr.adts:
+                            fty = cr.types[f_["ty"]]["s"]
+    if any(k in fty for k in ("Atomic", "Mutex", "RwLock", "Cell<", "Semaphore")) or field_writes(facts, adt, name):
+        return out
     for (ab, i, j, rv) in agg_sites(facts, adt):
         if name not in rv["fields"]:
             continue
         v = tr.expand(tr.operand(ab, rv["ops"][rv["fields"].index(name)], (i, j)), upvars=True, params=True)
-        for x in tr.walk(v, limit=80):
-            if x[0] == "field" and x[3] and (x[3], x[2]) != key:
-                out |= field_provenance(tr, x[3], x[2], depth + 1, seen)
-            elif x[0] == "field":
-                out.add(x[2])
+        # value-origin walk that stops at a field read (its base is the *container*, not the value)
+        work, done = [(v, 0)], set()
+        while work and len(done) < 120:
+            x, d0 = work.pop()
+            x = peel(x)
+            if x in done:
+                continue
+            done.add(x)
+            if x[0] == "field":
+                if x[3] and isinstance(x[2], str) and not x[2].isdigit() and (x[3], x[2]) != key:
+                    out |= field_provenance(tr, x[3], x[2], depth + 1, seen)
+                elif isinstance(x[2], str) and not x[2].isdigit():
+                    out.add(x[2])
+                else:
+                    work.append((x[1], d0))        # tuple projection: keep following the value
+            elif x[0] in ("param", "upvar"):
+                if d0 < 4:
+                    e = tr.expand(x, upvars=True, params=True)
+                    if e != x:
+                        work.append((e, d0 + 1))
+            elif x[0] == "call":
+                c = tr.call_of(x)
+                # value-preserving calls only (clone / conversions / Option plumbing / min-max clamps)
+                if c.name in ("clone", "into", "from", "unwrap_or", "unwrap_or_default", "unwrap", "expect", "max", "min", "clamp", "deref",
+                              "as_ref", "as_mut", "borrow", "to_owned", "new", "some", "take", "copied", "cloned", "map") and \
+                        not any(d in facts.bodies for d in c.targets_def()):
+                    for ch in tr.children(x):
+                        work.append((ch, d0))
+            elif x[0] == "agg":
+                # Some(x) / tuples carry the value; a workspace struct literal is a *container* of other values
+                rv2 = tr.agg_of(x)[1]
+                if not (rv2.get("ak") == "adt" and facts.adt(rv2.get("def")) is not None):
+                    for ch in tr.children(x):
+                        work.append((ch, d0))
+            else:
+                for ch in tr.children(x):
+                    work.append((ch, d0))
     cache[key] = out
     return out
 
@@ -367,19 +429,22 @@ def ret_assigns(tr, body):
 def field_writes(facts, adt_def, field):
     """assignments `(..).field = rv` through any projection path whose last ADT is adt_def
     -> [(body, bb, idx, stmt)]"""
-    out = []
-    for b in facts.all_bodies():
-        for i, blk in enumerate(b.blocks):
-            for j, s in enumerate(blk["stmts"]):
-                if s["k"] != "assign":
-                    continue
-                p = s["lhs"]["p"]
-                if not p:
-                    continue
-                last = p[-1]
-                if isinstance(last, dict) and last.get("n") == field and last.get("adt") == adt_def:
-                    out.append((b, i, j, s))
-    return out
+    idx = getattr(facts, "_fw_index", None)
+    if idx is None:
+        idx = {}
+        for b in facts.all_bodies():
+            for i, blk in enumerate(b.blocks):
+                for j, s in enumerate(blk["stmts"]):
+                    if s["k"] != "assign":
+                        continue
+                    p = s["lhs"]["p"]
+                    if not p:
+                        continue
+                    last = p[-1]
+                    if isinstance(last, dict) and "n" in last and last.get("adt"):
+                        idx.setdefault((last["adt"], last["n"]), []).append((b, i, j, s))
+        facts._fw_index = idx
+    return list(idx.get((adt_def, field), []))
 
 
 def agg_sites(facts, adt_def, variant=None):
@@ -409,6 +474,13 @@ def check_share(facts, tr, rep, rule, adt_def, only_fields=None):
     arc_fields = [f["name"] for f in adt["variants"][0]["fields"]
                   if crate.types[f["ty"]]["s"].startswith("alloc::sync::Arc<") and (only_fields is None or f["name"] in only_fields)]
     n = 0
+    # a shared handle is fixed at construction: assigning the field later detaches this instance from its clones
+    for fname in arc_fields:
+        for k, (wb, i, j, s_) in enumerate(field_writes(facts, adt_def, fname)):
+            rep.saw(wb)
+            rep.ob(rule, "%s|%s|reassign.%s#%d" % (wb.crate.name, adt_def, fname, k), False, where(wb, i, j),
+                   "%s.%s (state shared by all clones) is assigned after construction in %s: this instance stops sharing the state "
+                   "with its clones and with calls in flight" % (adt_def.split("::")[-1], fname, wb.def_.split("::")[-1]))
     for im in crate.impls:
         if im.get("trait") != CLONE.rsplit("::", 1)[0]:
             continue
@@ -442,3 +514,94 @@ def check_share(facts, tr, rep, rule, adt_def, only_fields=None):
                            "Clone of %s builds field %s from %s, not from Arc::clone(&self.%s): clones would not share state"
                            % (adt_def.split("::")[-1], fname, desc, fname))
     return n
+
+
+# ---------------------------------------------------------------------------------------------------------------
+# T-NO-PANIC-TIME: the operators on Instant / Duration (`+ - * += -= *=`) panic on overflow, while the methods the
+# code base otherwise uses (checked_*, saturating_*, tokio's relative sleep/timeout) do not.  A duration that comes
+# from configuration or from a per-request function may be Duration::MAX ("no limit"), so an operator applied to a
+# value that is not bounded by a constant turns such a configuration into a panic in the call path.
+_ARITH_TRAITS = ("core::ops::arith::Add", "core::ops::arith::Sub", "core::ops::arith::Mul", "core::ops::arith::AddAssign",
+                 "core::ops::arith::SubAssign", "core::ops::arith::MulAssign")
+
+
+def _const_bounded(tr, node, depth=0):
+    """every origin of `node` is a constant, a constructor applied to constants, or capped by one (`min(const)`)"""
+    if depth > 6:
+        return False
+    for lf in leaves(node):
+        lf = peel(lf)
+        if lf[0] in ("const", "fnconst"):
+            continue
+        if lf[0] == "call":
+            c = tr.call_of(lf)
+            args = [tr.expand(tr.operand(c.g.b, a, c.loc)) for a in c.args]
+            if c.name in ("min", "clamp") and any(_const_bounded(tr, a, depth + 1) for a in args[1:]):
+                continue
+            if c.name in ("now", "elapsed"):
+                continue           # a clock reading is not configuration
+            if c.name.startswith("from_") and args and all(_const_bounded(tr, a, depth + 1) for a in args):
+                continue
+            return False
+        if lf[0] in ("ref", "deref", "cast"):
+            if _const_bounded(tr, lf[2] if lf[0] == "cast" else lf[1], depth + 1):
+                continue
+        return False
+    return True
+
+
+def check_no_panicking_time_arith(facts, tr, rep, rule, bodies):
+    """one failed obligation per panicking Instant/Duration operator in `bodies` with an operand that is not bounded
+    by a constant; returns the number of operator calls examined"""
+    n = 0
+    for b in bodies:
+        for c in graph(b).calls():
+            if c.trait not in _ARITH_TRAITS or c.fn is None or c.fn.get("self_ty") is None:
+                continue
+            sty = b.types[c.fn["self_ty"]]["s"] if isinstance(c.fn["self_ty"], int) else str(c.fn["self_ty"])
+            if not (sty.endswith("Instant") or sty.endswith("Duration") or sty.endswith("SystemTime")):
+                continue
+            n += 1
+            ops = [tr.expand(tr.operand(b, a, c.loc), upvars=True) for a in c.args]
+            # the Instant side is a clock reading; the Duration side decides
+            unbounded = [o for o in ops if not _const_bounded(tr, o)]
+            rep.ob(rule, skey(b, "time-op#%d" % ordinal(graph(b), c)), not unbounded, c.where(),
+                   "`%s` is applied to values bounded by constants" % c.path.split("::")[-1] if not unbounded else
+                   "`%s` panics on overflow and its operand %s is not bounded by a constant: a very long configured or per-request "
+                   "duration (Duration::MAX for 'no limit') makes the call panic instead of resolving; use checked_/saturating_ "
+                   "arithmetic or the relative tokio timers" % (c.resolved or c.path, show(peel(unbounded[0]))[:80]))
+    return n
+
+
+# ---------------------------------------------------------------------------------------------------------------
+# "at least `dur` has passed since `start`" in the forms the guard may be written in
+_ELAPSED = ("std::time::Instant::elapsed", "tokio::time::instant::Instant::elapsed")
+_SINCE = ("std::time::Instant::duration_since", "std::time::Instant::saturating_duration_since",
+          "tokio::time::instant::Instant::duration_since", "tokio::time::instant::Instant::saturating_duration_since")
+_NOW = ("std::time::Instant::now", "tokio::time::instant::Instant::now")
+
+
+def elapsed_form(tr, cmp):
+    """cmp = (op, x, y) from normalise_cmp/cmp_on_edge.  Returns (start, dur) when it states `time since start >= dur`:
+         start.elapsed() >= dur | now.duration_since(start) >= dur | now >= start + dur | now >= start.checked_add(dur)?
+       (and the mirrored `<=` forms); else None"""
+    if cmp is None:
+        return None
+    op, x, y = cmp
+    if op in ("Le", "Lt"):
+        op, x, y = {"Le": "Ge", "Lt": "Gt"}[op], y, x
+    if op not in ("Ge", "Gt"):
+        return None
+    el = calls_in(tr, x, lambda c: c.def_ in _ELAPSED or c.def_ in _SINCE)
+    if el:
+        c = el[0]
+        a = [tr.expand(tr.operand(c.g.b, o, c.loc)) for o in c.args]
+        return (a[0] if c.def_ in _ELAPSED else a[1], y) if a else None
+    nowc = calls_in(tr, x, lambda c: c.def_ in _NOW)
+    if nowc:
+        adds = calls_in(tr, y, lambda c: c.name in ("checked_add", "add") and len(c.args) == 2)
+        if adds:
+            c = adds[0]
+            a = [tr.expand(tr.operand(c.g.b, o, c.loc)) for o in c.args]
+            return (a[0], a[1])
+    return None
